@@ -217,6 +217,10 @@ func runC02(src sim.Source, o Opts) *Result {
 			res.fail("C02/entry-points-disagree", "%s: %s", where, d)
 			return false
 		}
+		if d := lookupAgreesWithSet(rd, probes, set); d != "" {
+			res.fail("C02/lookup-wrong", "%s: %s", where, d)
+			return false
+		}
 		return true
 	}
 
